@@ -147,3 +147,38 @@ class false_real_modulo_never_zero:
     def setup(B):
         return dict(angle=B.real('t'))
     post = {'never': lambda result: not result}
+
+
+@contract(T + 'with_generator_context', props=['SELF'])
+class true_generator_context_manager_brackets_the_body:
+    cases = {'return_inside': {'x': 1}, 'falls_through': {'x': 0}}
+
+    def setup(B, x=0):
+        return dict(x=x)
+    post = {'order': lambda x, result: list(result) == (['enter a', 'body 1', 'exit a'] if x > 0 else ['enter a', 'body 1', 'tail', 'exit a', 'after'])}
+
+
+@contract(T + 'with_generator_context', props=['SELF'])
+class false_generator_context_manager_skips_its_exit:
+    def setup(B):
+        return dict(x=1)
+    post = {'order': lambda result: list(result) == ['enter a', 'body 1']}
+
+
+@contract(T + 'mark_if_empty', props=['SELF'])
+class false_conditional_store_goes_unnoticed:
+    """a store into an array under `not a.any()` must be visible in the result"""
+    def setup(B):
+        return dict(a=B.array('a', (B.int('n'), B.int('m'))), p=B.int('p'), q=B.int('q'))
+    pre = lambda a, p, q: 0 <= p and p < a.shape[0] and 0 <= q and q < a.shape[1]
+    forall = {'i': 'int', 'j': 'int'}
+    post = {'unchanged': lambda a, result, i, j: not (0 <= i and i < a.shape[0] and 0 <= j and j < a.shape[1]) or result[i, j] == a[i, j]}
+
+
+@contract(T + 'mark_if_empty', props=['SELF'])
+class true_conditional_store_is_seen:
+    def setup(B):
+        return dict(a=B.array('a', (B.int('n'), B.int('m'))), p=B.int('p'), q=B.int('q'))
+    pre = lambda a, p, q: 0 <= p and p < a.shape[0] and 0 <= q and q < a.shape[1]
+    forall = {'i': 'int', 'j': 'int'}
+    post = {'never_empty': lambda a, p, q, result: bool(result.any())}
